@@ -1,7 +1,7 @@
 """Checked contracts for ECAgent/Tags.py (C19).  TagLibrary is modelled through its instance __dict__:
 attribute reads resolve the instance dict first and the class (methods) second - pyvc.hooks.ns_getattr."""
 from pyvc.specs import contract, fields_of, lemma, implies, iff, index_of, order_of, key_at, is_fresh, \
-    same_elems, same_dict, typeof, is_none, same, same_obj, was, REG
+    same_elems, same_dict, typeof, is_none, same, same_obj, was, is_module_global, REG
 
 fields_of('TagLibrary', __dict__='dict[str,any]')
 REG.namespaces['TagLibrary'] = {'_tag_names': 'list[str]', '_tag_counter': 'int', 'NONE': 'int'}
@@ -99,15 +99,19 @@ contract('Tags.TagLibrary.itemize', params={'self': 'ref:TagLibrary'}, returns='
 
 # ------------------------------------------------------------------------------------------------ module level
 def Module_rep():
-    return Tag_rep(_module_library)
+    """The global library is well formed and none of its tag names is bound at module level in Tags.py (otherwise
+    `Tags.<name>` finds the module member: module __getattr__ is consulted for missing names only)."""
+    N = _module_library._tag_names
+    return Tag_rep(_module_library) and all(not is_module_global(N[i]) for i in range(len(N)))
 
 
 def m_add_taken(tag_name, old):
-    return tag_name in was(old, _module_library).__dict__
+    return tag_name in was(old, _module_library).__dict__ or is_module_global(tag_name)
 
 
 def m_add_may_reject(tag_name, old):
-    return tag_name in was(old, _module_library).__dict__ or hasattr(typeof(_module_library), tag_name)
+    return (tag_name in was(old, _module_library).__dict__ or hasattr(typeof(_module_library), tag_name)
+            or is_module_global(tag_name))
 
 
 contract('Tags.add_tag', params={'tag_name': 'str'},
